@@ -66,8 +66,9 @@ VERUS = {
 KANI = {}
 
 
-def _k(name, mod, layer, props, tier, bounds, label=None):
+def _k(name, mod, layer, props, tier, bounds, label=None, unwind_props=None):
     KANI[name] = {
+        "unwind_props": unwind_props or [],  # properties for which "loop does not terminate" IS the violation
         "qual": "%s::%s" % (mod, name),
         "layer": layer,
         "props": props,
@@ -185,7 +186,15 @@ for (nm, tier, props) in (
         ("drop_unirecv_bcast_n2", "thorough", ["C11", "C13", "C14"]),
         ("drop_send_bcast_n2", "quick", ["C07", "C14"]),
         ("drop_send_mpmc_n2", "thorough", ["C07", "C14"])):
-    _k("s12_" + nm, MQ_S, "S", props, tier, nm + "; arbitrary wf state; tasks pre-parked on both lists symbolically")
+    _k("s12_" + nm, MQ_S, "S", props, tier, nm + "; arbitrary wf state; one task pre-parked on each list",
+       unwind_props=(["C15"] if nm.startswith("poll_") or nm.startswith("start_send") else []))
+
+# S12w: FutWait alone (callee contracts of the futures harnesses)
+for (nm, tier) in (("notify_0", "thorough"), ("notify_1", "quick"), ("notify_2", "quick"), ("notify_9", "thorough"),
+                   ("notify_all_0", "thorough"), ("notify_all_2", "quick"), ("park_s00", "quick"), ("park_s11", "quick"),
+                   ("park_s21", "thorough"), ("send_or_park_s00", "quick"), ("send_or_park_s11", "quick"), ("send_or_park_s21", "thorough")):
+    _k("s12w_" + nm, MQ_S, "S", ["C14", "C15"] + (["C13"] if "send_or_park" in nm else []), tier,
+       nm + "; FutWait alone; parked tasks / spin counts concrete, wake-up test inputs symbolic", unwind_props=["C15"])
 
 # S13 memory manager epoch contract
 MEM = "memory::verif_contracts::proofs"
@@ -221,6 +230,38 @@ for (nm, tier, props, b) in (
         ("i7_view_bcast_n1_b3", "thorough", ["C01", "C04", "C07"], 3)):
     _k(nm, MQ_S, "I", props, tier, IB % b, label="proved-for-stated-bounds (<= %d env actions, retries bounded by them)" % b)
 
+# I5: wait arguments under interference
+for (nm, tier) in (("i5_recv_args_sole_bcast_n2_b2", "quick"), ("i5_recv_args_shared_bcast_n2_b2", "quick"),
+                   ("i5_recv_args_shared_mpmc_n2_b2", "quick"), ("i5_recv_view_args_bcast_n2_b2", "thorough")):
+    _k(nm, MQ_S, "I", ["C08"], tier, IB % 2, label="proved-for-stated-bounds (<= 2 env actions)")
+
+# T: try operations run alone from frozen-others states
+for (nm, tier) in (("t1_try_send_bcast_n2", "quick"), ("t1_try_send_mpmc_n2", "quick"), ("t3_try_recv_bcast_n2", "quick"),
+                   ("t3_try_recv_mpmc_n2", "quick"), ("t4_try_view_bcast_n2", "quick"), ("t4_try_view_mpmc_n2", "thorough")):
+    _k(nm, MQ_S, "T", ["C18"], tier, "N=2; arbitrary pins, unpublished claims, stale cache; silent environment; <= 24 own shared accesses",
+       unwind_props=["C18"])
+
+# W: wait strategies (wait.rs)
+WT = "wait::verif_contracts::proofs"
+_k("p10_check_spec", WT, "Pk", ["C08", "C15", "C14"], "quick", "all (seq < 2^63, tag, writer count)")
+_k("w1_busy_wait", WT, "S", ["C08"], "quick", "condition becomes true after 1..2 looks; by publication or by the last sender leaving", unwind_props=["C08"])
+_k("w2_yielding_wait", WT, "S", ["C08"], "quick", "spin counts (0..1, 0..2); condition true after 1..2 pauses", unwind_props=["C08"])
+_k("w3_blocking_wait", WT, "S", ["C08"], "quick", "spin counts (0..1, 0..1); condition true after 1..2 pauses", unwind_props=["C08"])
+_k("w3_blocking_notify", WT, "S", ["C08"], "quick", "monitor discipline of notify")
+
+# B: bounded stand-ins, run NATIVELY (real crate, hooks on): concrete public-API histories, both ledgers.
+# Never counted as proved.  name -> dict(props, tier, bounds)
+NATIVE = {}
+for (cap, tier) in ((0, "quick"), (1, "quick"), (2, "quick"), (3, "quick"), (5, "quick"), (9, "quick")):
+    NATIVE["e2e_broadcast_cap%d" % cap] = {"props": ["C09", "C03", "C05", "C07", "C10", "C11", "C17"], "tier": tier,
+                                           "bounds": "one concrete history for requested capacity %d, payload bases {0, 7, 999}" % cap}
+for (cap, tier) in ((0, "quick"), (2, "quick"), (4, "quick"), (7, "quick")):
+    NATIVE["e2e_mpmc_cap%d" % cap] = {"props": ["C09", "C03", "C05", "C07", "C11", "C12", "C17"], "tier": tier,
+                                      "bounds": "one concrete history for requested capacity %d, payload bases {0, 7, 999}" % cap}
+for cap in (2, 4):
+    NATIVE["e2e_mpmc_teardown_cap%d" % cap] = {"props": ["C05", "C13", "C17"], "tier": "quick",
+                                               "bounds": "teardown with queued values, receivers first, capacity %d" % cap}
+
 # ------------------------------------------------------------------------------------------------
 # compile probes (layer X) are generated by tools/probes.py; all serve C19
 PROBE_PROPS = ["C19"]
@@ -233,6 +274,10 @@ TITLES = {}
 
 def verus_for(prop):
     return sorted(f for f, ps in VERUS.items() if prop in ps)
+
+
+def native_for(prop, tier):
+    return sorted(n for n, h in NATIVE.items() if prop in h["props"] and (tier == "thorough" or h["tier"] == "quick"))
 
 
 def kani_for(prop, tier):
